@@ -1,11 +1,19 @@
 (* C18 — every reported inverse model is a genuine, admissible mole-balance model.
-   Statements only; proofs are in coq/C18/*.v. *)
-From Coq Require Import QArith Qabs List Bool ZArith.
-From IPV Require Import C18.Check C18.CheckProofs.
+   Statements only; proofs are in coq/C18/*.v.  Gen_C18_bits.v is regenerated from /repo's
+   src/phreeqcpp/inverse.cpp on every run, so the theorems that mention gen_* / t_sup / t_bad / t_min
+   are re-checked against the current source. *)
+From Coq Require Import QArith Qabs List Bool ZArith String.
+From IPV Require Import C18.Check C18.CheckProofs C18.Search C18.SearchProofs C18.Bits Gen.Gen_C18_bits C18.GenProofs.
 Import ListNotations.
+
+(* ---------------------------------------------------------------- the verified checker (over Q) *)
 Open Scope Q_scope.
 
-(* The executable checker applied to every reported model accepts exactly the admissible ones. *)
+(* [admissible pb md] (CheckProofs.v) says: for every element
+     | Sum_states Sum_s sg_s (f_s T_{v,s} + eps_{v,s}) + Sum_p t_p c_{e,p} | <= tolb,
+   every adjustment |eps_{v,s}| <= b_{v,s} f_s + tolu, f_s >= -tolu, dissolve-only t_p >= -tolu,
+   precipitate-only t_p <= tolu, every value in its [min,max] (relative slack tolr), lists well-formed.
+   The checker accepts exactly the admissible models. *)
 Theorem check_inverse_sound : forall pb md, check_inverse_model pb md = true -> admissible pb md.
 Proof. exact check_inverse_sound_lemma. Qed.
 Print Assumptions check_inverse_sound.
@@ -13,3 +21,96 @@ Print Assumptions check_inverse_sound.
 Theorem check_inverse_complete : forall pb md, admissible pb md -> check_inverse_model pb md = true.
 Proof. exact check_inverse_complete_lemma. Qed.
 Print Assumptions check_inverse_complete.
+
+(* with eps = f * delta the bounded residual is the textbook  Sum_s sg_s f_s (T_s + delta_s) *)
+Theorem balance_delta_form : forall sg f T d, mix sg f T (mul2 f d) == mixd sg f T d.
+Proof. exact balance_delta_form_lemma. Qed.
+Print Assumptions balance_delta_form.
+
+(* and for a solution that takes part (f > 0) the bound on eps is the declared bound on delta = eps / f *)
+Theorem adj_delta_form : forall f e b tol, 0 < f -> Qabs e <= b * f + tol -> Qabs (e / f) <= b + tol / f.
+Proof. exact adj_delta_form_lemma. Qed.
+Print Assumptions adj_delta_form.
+
+(* the -minimal inclusion check on reported masks decides the antichain property *)
+Theorem antichain_b_iff : forall l, antichain_b l = true <-> antichain l.
+Proof. exact antichain_b_iff_lemma. Qed.
+Print Assumptions antichain_b_iff.
+
+Close Scope Q_scope.
+Open Scope Z_scope.
+
+(* ---------------------------------------------------------------- the regenerated bit tests *)
+Theorem gen_superset_minimal_decides_inclusion :
+  looptest_shape "minimal" "count_minimal" gen_superset_minimal = true /\
+  forall bits m, t_sup bits m = true <-> subset m bits.
+Proof. exact gen_superset_minimal_ok. Qed.
+Print Assumptions gen_superset_minimal_decides_inclusion.
+
+Theorem gen_subset_bad_decides_inclusion :
+  looptest_shape "bad" "count_bad" gen_subset_bad = true /\
+  forall bits b, t_bad bits b = true <-> subset bits b.
+Proof. exact gen_subset_bad_ok. Qed.
+Print Assumptions gen_subset_bad_decides_inclusion.
+
+Theorem gen_subset_minimal_decides_inclusion :
+  looptest_shape "minimal" "count_minimal" gen_subset_minimal = true /\
+  forall bits m, t_min bits m = true <-> subset bits m.
+Proof. exact gen_subset_minimal_ok. Qed.
+Print Assumptions gen_subset_minimal_decides_inclusion.
+
+Theorem gen_set_bit_clears_and_sets : forall bits p, 0 <= p ->
+  beval gen_set_bit_value0 bits (Z.shiftl 1 p) = Z.clearbit bits p /\
+  beval gen_set_bit_value1 bits (Z.shiftl 1 p) = Z.setbit bits p.
+Proof. exact gen_set_bit_ok. Qed.
+Print Assumptions gen_set_bit_clears_and_sets.
+
+Theorem gen_minimal_solve_bit_updates : forall mb i, 0 <= i -> Z.testbit mb i = true ->
+  beval gen_ms_clear mb (Z.shiftl 1 i) = Z.clearbit mb i /\
+  beval gen_ms_putback_subset_bad mb (Z.shiftl 1 i) = mb /\
+  beval gen_ms_putback_infeasible mb (Z.shiftl 1 i) = mb.
+Proof. exact gen_minimal_solve_bits_ok. Qed.
+Print Assumptions gen_minimal_solve_bit_updates.
+
+(* ---------------------------------------------------------------- the subset search with -minimal
+   [search t_sup t_bad t_min solve nph nsol true range force] is the model of solve_inverse with
+   -minimal (Search.v) using the regenerated tests; [solve] = solve_with_mask (shrink + cl1 + support
+   extraction) is ANY function Z -> bool * Z. *)
+
+(* any oracle whose support stays inside the mask: a model reported later never contains (nor equals)
+   one reported earlier *)
+Theorem later_model_never_contains_earlier :
+  forall (solve : Z -> bool * Z) (nph nsol : nat) (range_opt : bool) (force_mask : Z),
+  (forall m, subset (snd (solve m)) m) ->
+  ForallOrdPairs (fun a b => ~ subset a b)
+    (good (search t_sup t_bad t_min solve nph nsol true range_opt force_mask)).
+Proof. exact later_never_contains_earlier_gen. Qed.
+Print Assumptions later_model_never_contains_earlier.
+
+(* a consistent feasibility oracle: the reported masks form an antichain (no reported model's set of
+   phases and solutions contains that of another reported model) *)
+Theorem minimal_models_antichain :
+  forall (solve : Z -> bool * Z) (nph nsol : nat) (range_opt : bool) (force_mask : Z),
+  (forall m, subset (snd (solve m)) m) ->
+  (forall m i, Z.of_nat (nph + nsol) <= i -> Z.testbit (snd (solve m)) i = false) ->
+  (forall a b, fst (solve a) = true -> subset a b -> fst (solve b) = true) ->
+  (forall a, fst (solve a) = true -> fst (solve (snd (solve a))) = true) ->
+  (forall a, fst (solve a) = true -> Z.testbit a (Z.of_nat (nph + nsol) - 1) = true) ->
+  forall a b,
+    In a (good (search t_sup t_bad t_min solve nph nsol true range_opt force_mask)) ->
+    In b (good (search t_sup t_bad t_min solve nph nsol true range_opt force_mask)) ->
+    subset a b -> a = b.
+Proof. exact minimal_models_antichain_gen. Qed.
+Print Assumptions minimal_models_antichain.
+
+(* ... and every reported mask is feasible for the oracle *)
+Theorem reported_models_feasible :
+  forall (solve : Z -> bool * Z) (nph nsol : nat) (range_opt : bool) (force_mask : Z),
+  (forall m, subset (snd (solve m)) m) ->
+  (forall m i, Z.of_nat (nph + nsol) <= i -> Z.testbit (snd (solve m)) i = false) ->
+  (forall a b, fst (solve a) = true -> subset a b -> fst (solve b) = true) ->
+  (forall a, fst (solve a) = true -> fst (solve (snd (solve a))) = true) ->
+  (forall a, fst (solve a) = true -> Z.testbit a (Z.of_nat (nph + nsol) - 1) = true) ->
+  forall a, In a (good (search t_sup t_bad t_min solve nph nsol true range_opt force_mask)) -> fst (solve a) = true.
+Proof. exact reported_models_feasible_gen. Qed.
+Print Assumptions reported_models_feasible.
